@@ -47,7 +47,12 @@ type Store struct {
 	InsertDelay func()
 	// ReadDelay, when non-nil, is called before every read (free-running jitter).
 	ReadDelay func()
+	// FailKeyLookup, when non-nil, is asked before every lookup of an idempotency key: true makes the lookup fail.
+	FailKeyLookup func(ctx context.Context) bool
 }
+
+// ErrRead is what a failing read returns.
+var ErrRead = errors.New("verif: store read failed")
 
 func New() *Store { return &Store{} }
 
@@ -201,6 +206,9 @@ func (s *Store) GetLastTransaction(ctx context.Context) (*ledger.ExpandedTransac
 
 func (s *Store) ReadLogWithIdempotencyKey(ctx context.Context, key string) (*ledger.ChainedLog, error) {
 	s.delay()
+	if f := s.FailKeyLookup; f != nil && f(ctx) {
+		return nil, ErrRead
+	}
 	s.mu.Lock()
 	defer s.mu.Unlock()
 	for _, l := range s.logs {
